@@ -151,6 +151,15 @@ fn any_value(rng: &mut Rng, depth: usize, budget: &mut i64) -> Value {
     }
 }
 
+pub fn any_value_top(rng: &mut Rng) -> Value {
+    let mut budget = 30i64;
+    if rng.chance(1, 3) {
+        any_scalar(rng)
+    } else {
+        any_value(rng, 3, &mut budget)
+    }
+}
+
 /// A chain of `depth` nested collections ending in an ill-formed scalar.
 fn deep_value(rng: &mut Rng, depth: usize) -> Value {
     let mut v = any_scalar(rng);
